@@ -15,7 +15,7 @@ open Supv.Inst
 /-- **C13 (permanence).**  Over every history of operations of an instance — any message kind, any order, any oracle
     stream, internal errors included — a peer that is ISOLATED stays ISOLATED (until the local Supervisor restarts, which is
     a fresh `initSt`). -/
-theorem C13_permanent (j : Nat) (c : Cfg) (ops : List (Nat × Op × List (Query × Bool))) (s : St) (h : peerIso j s) :
+theorem C13_permanent (j : Nat) (c : Cfg) (ops : List (Nat × Op × List (Query × Nat))) (s : St) (h : peerIso j s) :
     peerIso j (ops.foldl (fun s o => (stepOp c s o.1 o.2.1 o.2.2).1) s) := by
   induction ops generalizing s with
   | nil => exact h
@@ -27,39 +27,39 @@ theorem C13_permanent (j : Nat) (c : Cfg) (ops : List (Nat × Op × List (Query 
 theorem C13_isolated_terminal : IState.isolated.next = [] := by decide
 
 /-- the frame of one ignored message: nothing but the bookkeeping of the step itself changes, nothing is emitted -/
-def ignored (s : St) (now : Nat) (orc : List (Query × Bool)) : St × Option Err :=
+def ignored (s : St) (now : Nat) (orc : List (Query × Nat)) : St × Option Err :=
   ({ s with now := now, out := [], oracle := orc, oracleBad := 0 }, none)
 
 /-- **C13 (airtight), TICK.**  A tick whose origin is ISOLATED changes no status and emits nothing. -/
-theorem C13_airtight_tick (c : Cfg) (s : St) (now j k : Nat) (orc : List (Query × Bool)) (h : peerIso j s) :
+theorem C13_airtight_tick (c : Cfg) (s : St) (now j k : Nat) (orc : List (Query × Nat)) (h : peerIso j s) :
     stepOp c s now (.rtick j k) orc = ignored s now orc := by
   unfold peerIso at h
   simp [ignored, stepOp, handle, handleRtick, isValid, getPeer, StateT.run, bind, StateT.bind, get, getThe, MonadStateOf.get,
     StateT.get, pure, StateT.pure, Except.pure, Except.bind, h]
 
 /-- **C13 (airtight), state publication / notification.** -/
-theorem C13_airtight_state (c : Cfg) (s : St) (now j : Nat) (m : Modes) (orc : List (Query × Bool)) (h : peerIso j s) :
+theorem C13_airtight_state (c : Cfg) (s : St) (now j : Nat) (m : Modes) (orc : List (Query × Nat)) (h : peerIso j s) :
     stepOp c s now (.state j m) orc = ignored s now orc := by
   unfold peerIso at h
   simp [ignored, stepOp, handle, handleState, isValid, getPeer, StateT.run, bind, StateT.bind, get, getThe, MonadStateOf.get,
     StateT.get, pure, StateT.pure, Except.pure, Except.bind, h]
 
 /-- **C13 (airtight), handshake result** (also stale or duplicated ones). -/
-theorem C13_airtight_auth (c : Cfg) (s : St) (now j code ts : Nat) (orc : List (Query × Bool)) (h : peerIso j s) :
+theorem C13_airtight_auth (c : Cfg) (s : St) (now j code ts : Nat) (orc : List (Query × Nat)) (h : peerIso j s) :
     stepOp c s now (.auth j code ts) orc = ignored s now orc := by
   unfold peerIso at h
   simp [ignored, stepOp, handle, handleAuth, isValid, getPeer, StateT.run, bind, StateT.bind, get, getThe, MonadStateOf.get,
     StateT.get, pure, StateT.pure, Except.pure, Except.bind, h]
 
 /-- **C13 (airtight), failure notification.** -/
-theorem C13_airtight_failure (c : Cfg) (s : St) (now j : Nat) (orc : List (Query × Bool)) (h : peerIso j s) :
+theorem C13_airtight_failure (c : Cfg) (s : St) (now j : Nat) (orc : List (Query × Nat)) (h : peerIso j s) :
     stepOp c s now (.failure j) orc = ignored s now orc := by
   unfold peerIso at h
   simp [ignored, stepOp, handle, handleFailure, isValid, getPeer, StateT.run, bind, StateT.bind, get, getThe, MonadStateOf.get,
     StateT.get, pure, StateT.pure, Except.pure, Except.bind, h]
 
 /-- **C13 (airtight), failed process-information transfer.** -/
-theorem C13_airtight_allinfo (c : Cfg) (s : St) (now j : Nat) (orc : List (Query × Bool)) (h : peerIso j s) :
+theorem C13_airtight_allinfo (c : Cfg) (s : St) (now j : Nat) (orc : List (Query × Nat)) (h : peerIso j s) :
     stepOp c s now (.allinfoNone j) orc = ignored s now orc := by
   unfold peerIso at h
   simp [ignored, stepOp, handle, handleAllinfoNone, isValid, getPeer, StateT.run, bind, StateT.bind, get, getThe,
@@ -67,7 +67,7 @@ theorem C13_airtight_allinfo (c : Cfg) (s : St) (now j : Nat) (orc : List (Query
 
 /-- **C13 (stale handshake notifications).**  An authorization whose timestamp is not later than the entry in CHECKING, or
     that arrives while the peer is not CHECKING, is ignored whatever it says. -/
-theorem C13_stale_auth_ignored (c : Cfg) (s : St) (now j code ts : Nat) (orc : List (Query × Bool))
+theorem C13_stale_auth_ignored (c : Cfg) (s : St) (now j code ts : Nat) (orc : List (Query × Nat))
     (h : ¬ ((s.peers[j]?.getD {}).state = .checking ∧ ts > (s.peers[j]?.getD {}).checkingTime)) :
     stepOp c s now (.auth j code ts) orc = ignored s now orc := by
   by_cases hv : (s.peers[j]?.getD {}).state = .isolated
